@@ -126,6 +126,37 @@ example : AllInt [⟨1, .int 5, [], []⟩, ⟨2, .int (-3), [], []⟩] ∧
   refine ⟨?_, by decide⟩
   intro x hx; simp at hx; rcases hx with rfl | rfl <;> exact ⟨_, rfl⟩
 
+/-- **min selects a point with THE least value and, among those, the earliest time** (`MinLe p x`: smaller
+value, or equal value and not later); max likewise with the greatest value. -/
+theorem min_selects_least_earliest (xs : List QP) (h : AllInt xs) (p : QP) (hs : select .min xs = some p) :
+    p ∈ xs ∧ ∀ x ∈ xs, MinLe p x :=
+  select_min_int xs h p hs
+
+theorem max_selects_greatest_earliest (xs : List QP) (h : AllInt xs) (p : QP) (hs : select .max xs = some p) :
+    p ∈ xs ∧ ∀ x ∈ xs, MaxLe p x :=
+  select_max_int xs h p hs
+
+/-- … so the selected value and time do not depend on the arrival order of the batch's points. -/
+theorem min_order_independent (xs ys : List QP) (h : AllInt xs) (pm : xs.Perm ys) (p q : QP)
+    (hp : select .min xs = some p) (hq : select .min ys = some q) : intVal p = intVal q ∧ p.time = q.time := by
+  have hy : AllInt ys := fun y hy => h y (pm.mem_iff.mpr hy)
+  obtain ⟨m1, l1⟩ := select_min_int xs h p hp
+  obtain ⟨m2, l2⟩ := select_min_int ys hy q hq
+  have a := l1 q (pm.mem_iff.mpr m2)
+  have b := l2 p (pm.mem_iff.mp m1)
+  unfold MinLe at a b; omega
+
+theorem max_order_independent (xs ys : List QP) (h : AllInt xs) (pm : xs.Perm ys) (p q : QP)
+    (hp : select .max xs = some p) (hq : select .max ys = some q) : intVal p = intVal q ∧ p.time = q.time := by
+  have hy : AllInt ys := fun y hy => h y (pm.mem_iff.mpr hy)
+  obtain ⟨m1, l1⟩ := select_max_int xs h p hp
+  obtain ⟨m2, l2⟩ := select_max_int ys hy q hq
+  have a := l1 q (pm.mem_iff.mpr m2)
+  have b := l2 p (pm.mem_iff.mp m1)
+  unfold MaxLe at a b; omega
+
+example : select .min [⟨5, .int 2, [], []⟩, ⟨3, .int 2, [], []⟩, ⟨1, .int 7, [], []⟩] = some ⟨3, .int 2, [], []⟩ := by decide
+
 /-- A selector returns one of the batch's own points (so its time, tags and fields are that point's). -/
 theorem selector_selects_a_point (fn : Fn) (xs : List QP) (p : QP) (h : select fn xs = some p) : p ∈ xs :=
   select_mem fn xs p h
